@@ -23,6 +23,8 @@ type C10Case struct {
 	// handler rewrites in place the first value of every header it can reach (as a
 	// later stage normalising Vary or CORS headers would).
 	Prelude *Req `json:"prelude,omitempty"`
+	// Between: serve the prelude between the two requests of the pair instead of before them.
+	Between bool `json:"prelude_between,omitempty"`
 }
 
 func (c C10Case) Brief() any {
@@ -119,6 +121,7 @@ func c10Gen(t *rapid.T) C10Case {
 			r = genReq(t, p)
 		}
 		c.Prelude = &r
+		c.Between = chance(t, "between", 50)
 	}
 	return c
 }
@@ -145,7 +148,7 @@ func c10Check(c C10Case, rec *Recorder) *Disc {
 		return nil
 	}
 	srv := NewServer(m.Wrap) // one wrapped handler for the prelude and the pair
-	if c.Prelude != nil {
+	if c.Prelude != nil && !c.Between {
 		rec.Class("with-prelude")
 		DoScript(srv.Wrap, *c.Prelude, nil, rewritingHandler)
 	}
@@ -173,6 +176,11 @@ func c10Check(c C10Case, rec *Recorder) *Disc {
 		return nil
 	}
 	r2 := deriveR2(c.R1, c.Alt, vary)
+	if c.Prelude != nil && c.Between {
+		// what is served between the two requests of the pair does not matter either
+		rec.Class("with-request-in-between")
+		DoScript(srv.Wrap, *c.Prelude, nil, rewritingHandler)
+	}
 	resp2 := Do(srv.Wrap, r2, c.Preset)
 	rec.Eval(1)
 	differs := false
@@ -204,7 +212,7 @@ func c10Check(c C10Case, rec *Recorder) *Disc {
 
 func TestC10(t *testing.T) {
 	Prop[C10Case]{ID: "C10", Gen: c10Gen, Check: c10Check,
-		Rule: "generator: valid configuration x debug x pre-set response headers (none, one or several Vary lines, Vary: Origin, rarely Vary: *) x constant inner handler x (30%) an earlier request on the same wrapped handler whose inner handler rewrites in place the first value of every header slice it can reach x arbitrary request r1 x independently drawn alternative request with the same method; " +
+		Rule: "generator: valid configuration x debug x pre-set response headers (none, one or several Vary lines, Vary: Origin, rarely Vary: *) x constant inner handler x (30%) another request on the same wrapped handler (before the pair, or between its two requests) whose inner handler rewrites in place the first value of every header slice it can reach x arbitrary request r1 x independently drawn alternative request with the same method; " +
 			"r2 = every header named in the first response's Vary copied from r1 (same presence and value list), every other header taken from the alternative. Oracle: identical status and headers for r1 and r2; pre-set Vary values are a prefix of the response's Vary; other pre-set headers unchanged. " +
 			"non-trivial = r2 differs from r1 in presence or value of at least one of Origin/ACRM/ACRH/ACRPN; pairs under Vary: * are skipped and counted; distinct by (configuration, debug, preset, r1, r2).",
 		Assumptions: []string{"'present with zero values' and 'absent' are treated as different, so r2 copies presence exactly (no wire request can produce the former)"}}.Run(t)
